@@ -66,6 +66,8 @@ structure Table where
   secs : List Sec
   ops : List (Nat × String × List String)
   staticOps : List (Nat × String × List String)
+  /-- names of the sections with statements on connection-scoped objects (TEMP schema, ATTACH, PRAGMA) -/
+  scratch : List String := []
   deriving Repr
 
 def Life.ofRaw (r : Bool × Bool × Bool × Bool × Bool) : Life :=
@@ -86,7 +88,7 @@ def table : Table :=
     createPassesShared := GenSqliteConn.createPassesShared, ctorOpensShared := GenSqliteConn.ctorOpensShared,
     lockPerStore := GenSqliteConn.lockPerStore,
     unknowns := GenSqliteConn.unknowns, secs := GenSqliteConn.secs.map Sec.ofRaw,
-    ops := GenSqliteConn.ops, staticOps := GenSqliteConn.staticOps }
+    ops := GenSqliteConn.ops, staticOps := GenSqliteConn.staticOps, scratch := GenSqliteConn.scratchSecs }
 
 /-! ## state -/
 
@@ -343,5 +345,57 @@ that is granted at once, or eventually, in one mode is so in the other. -/
 def LocksAgree (t : Table) : Prop :=
   ∀ (s1 s2 : List Bool), s1.length = s2.length → ∀ (acts : List LAct),
     (runLocks t s1 acts {}).2 = (runLocks t s2 acts {}).2
+
+/-! ## connection-scoped state
+
+TEMP tables / views / triggers, attached databases and PRAGMA settings belong to a
+*connection*, not to the database: a connection opened for one call starts without
+them and takes them along when it is closed; on the persistent connection whatever a
+section leaves there is seen by every later section that looks.  The content of that
+state is abstract (`K`), and so is what a section does with it (`KSem`: section index →
+argument → state seen → state left, value returned); `k0` is what a newly opened
+connection has.  A section whose code has no statement on such objects neither reads nor
+changes them (its value is the one it computes on a new connection). -/
+
+abbrev KSem (K V : Type) := Nat → V → K → K × V
+
+def secScratch (t : Table) (sec : Sec) : Bool := t.scratch.contains sec.name
+
+/-- one section, with respect to the connection-scoped state `k` of the persistent connection -/
+def scratchStep {K V : Type} (t : Table) (m : Mode) (ksem : KSem K V) (k0 : K) (stores : List Bool)
+    (obj : Option Nat) (s : Nat) (a : V) (k : K) : K × Option V :=
+  match t.secs[s]? with
+  | none => (k, none)
+  | some sec =>
+    match onShared t m sec obj stores with
+    | none => (k, none)
+    | some sh =>
+      if secScratch t sec then
+        if sh then
+          let r := ksem s a k      -- sees what earlier sections left; what it leaves stays
+          (r.1, some r.2)
+        else (k, some (ksem s a k0).2)   -- new connection: starts from `k0`, its state goes with it
+      else (k, some (ksem s a k0).2)
+
+/-- a history of sections `(object, section, argument)`; values in order -/
+def runScratch {K V : Type} (t : Table) (m : Mode) (ksem : KSem K V) (k0 : K) (stores : List Bool) :
+    List (Option Nat × Nat × V) → K → K × List (Option V)
+  | [], k => (k, [])
+  | c :: cs, k =>
+    let r := scratchStep t m ksem k0 stores c.1 c.2.1 c.2.2 k
+    let rs := runScratch t m ksem k0 stores cs r.1
+    (rs.1, r.2 :: rs.2)
+
+/-- The connection-scoped part of the property: whatever sections do with such state, every
+history returns the same values in both modes (whichever state stores exist), and the
+persistent connection is left as a new one would be. -/
+def ScratchAgree (t : Table) : Prop :=
+  ∀ (K V : Type) (ksem : KSem K V) (k0 : K) (s1 s2 : List Bool), s1.length = s2.length →
+    ∀ (h : List (Option Nat × Nat × V)),
+      (runScratch t .single ksem k0 s1 h k0).2 = (runScratch t .perCall ksem k0 s2 h k0).2 ∧
+      (runScratch t .single ksem k0 s1 h k0).1 = k0
+
+/-- no section has statements on connection-scoped objects -/
+def tableNoScratch (t : Table) : Bool := t.secs.all fun sec => !secScratch t sec
 
 end SqliteConn
